@@ -72,6 +72,7 @@ pub proof fn lemma_step_monotone(o: Tableau, f: Tableau, t: int, h: int, ratio: 
     requires tab_wf(o), 0 <= h < o.c.len(), t_lt(rv(o.c[h]), 0real, EPS()), ratio_ok(o, h, t, ratio), pivoted(o, f, t, h), rv(o.b[t]) >= 0real,
     ensures rv(f.current_value) >= rv(o.current_value),
 {
+    reveal(rmul_s); reveal(rdiv_s);
     let ch = rv(o.c[h]); let p = rv(o.a[t][h]); let bt = rv(o.b[t]);
     assert(ch < 0real && p > 0real);
     assert((ch / p) * bt <= 0real) by (nonlinear_arith) requires ch < 0real, p > 0real, bt >= 0real;
@@ -86,6 +87,7 @@ pub proof fn lemma_step_feasible(o: Tableau, f: Tableau, t: int, h: int, ratio: 
         forall|i: int| 0 <= i < o.a.len() && i != t && rv(o.a[i][h]) <= 0real ==> rv(#[trigger] f.b[i]) >= rv(o.b[i]),
         forall|i: int| 0 <= i < o.a.len() && i != t && t_gt(rv(o.a[i][h]), 0real, EPS()) ==> rv(#[trigger] f.b[i]) >= -EPS() * rv(o.a[i][h]),
 {
+    reveal(rmul_s); reveal(rdiv_s);
     let p = rv(o.a[t][h]); let bt = rv(o.b[t]);
     assert(p > 0real);
     assert(bt / p >= 0real) by (nonlinear_arith) requires bt >= 0real, p > 0real;
